@@ -139,3 +139,5 @@ func show(v any) string {
 	}
 	return fmt.Sprintf("%#v", v)
 }
+
+func newRng(seed int64) *rand.Rand { return rand.New(rand.NewSource(seed)) }
